@@ -51,9 +51,10 @@ CONSTANTS
                         \* allocator insists on a remembered address, whatever lies there now)
   SavedFrom,            \* "install" | "first" (deviation: the bytes to restore come from a process-wide table filled
                         \* when the function was first seen and never invalidated)
-  TrampFlushed          \* FALSE = the macOS variant as read from the source: clear_cache() is empty there and only
-                        \* patch_function() invalidates the instruction cache, so trampoline contents written through
-                        \* inject_asm_code() get no platform flush (cannot be executed or confirmed in this sandbox)
+  TrampFlushed          \* FALSE = the macOS variant of the pinned tree: clear_cache() was empty there and only
+                        \* patch_function() invalidated the instruction cache, so trampoline contents written through
+                        \* inject_asm_code() got no platform flush.  Confirmed on the macOS build of common.rs run against OS
+                        \* shims (Trace_Flush) and repaired in /repo (12ba8e5); kept as a deviation for `check.py selftest`
 
 Free   == "free"
 NoSite == 0
